@@ -44,6 +44,9 @@ EXTRA_VALUES = [
     ['n', 0.1], ['b', True], ['b', False], ['d', 43831], ['s', ''],
     ['s', ' lead'], ['n', 12345678901234567890], ['s', '=not a formula'],
     ['s', u'日本語'], ['n', -0.0],
+    # dates WITH a time of day, down to fractions of a second
+    ['d', 43831.5], ['d', 44260.524270833], ['d', 36526.000011574],
+    ['d', 61.999988426],
 ]
 ERR_FORMULAS = ['=1/0', '=NA()', '="a"+1', '=SQRT(-1)', '=#REF!',
                 '=#NAME?', '=#NULL!']
